@@ -212,8 +212,8 @@ def explore(modname, tasks, workers, deadline, log):
             if time.time() > deadline:
                 for f in pending:
                     f.cancel()
-                for a in agg.values():
-                    a["truncated"] = True
+                for tn, _ in pending.values():
+                    agg[tn]["truncated"] = True
                 log("deadline reached with paths pending: inconclusive; stuck: "
                     + ", ".join(sorted({tn for tn, _ in pending.values()}))[:400])
                 procs = list(getattr(ex, "_processes", {}).values())
